@@ -56,7 +56,8 @@ ATTR_NAMES = ["id", "class", "a", "b", "title", "type", "encoding", "color", "fa
               "xml:base", "xlink:title", "charset", "http-equiv", "content", "checked", "é", "a\"", "<", "a'b", "=x", "0"]
 ATTR_VALUES = ["&amp;lt;", "&amp;#60;x", "&amp;amp", "a&amp;b;", "", "1", "x", "hidden", "HIDDEN", "text/html", "TEXT/HTML", "application/xhtml+xml", "a b", "&amp;", "&amp",
                "&lt", "a>b", "a<b", "'", "\"", "`", "=", "\x00", "é", "\U0001F600", "javascript:alert(1)", "x\ny",
-               "&#x41;", "&notit;", "utf-8", "text/html; charset=utf-8", "content-type", "</p>", "-->", "\ud83d"]
+               "&#x41;", "&notit;", "utf-8", "text/html; charset=utf-8", "content-type", "</p>", "-->", "\ud83d",
+               "\xc9cole", "\xc4=1", "\xd1;", "\xc0"]     # capitals whose legacy entity name exists without ';' (matters under a narrow output encoding)
 
 
 TEXT_ATOMS = ["&amp;lt;", "&amp;#60;", "&amp;amp;", "a", "b", "x", "y", "1", " ", " ", "\n", "\t", "\f", "\r", "\r\n", "\x00", "&amp;", "&lt", "&#x41;", "&", "&#0;",
